@@ -1,7 +1,9 @@
 package rules
 
 import (
+	"fmt"
 	"go/token"
+	"go/types"
 	"strings"
 
 	"golang.org/x/tools/go/ssa"
@@ -10,29 +12,68 @@ import (
 	"charonverif/internal/rt"
 )
 
+// T7 — every comparison of a count with the quorum / f+1 threshold is exact. Formulated on normalised
+// comparisons: the threshold side is `Quorum()+k` or `Faulty()+k` (either operand order, through locals and
+// in-package helpers that return it), the comparison is brought to the form `count >= T+k` / `count < T+k` /
+// `count == T+k` / `count != T+k` (`>` and `<=` shift k by one), and then quorum needs k = 0 with >= or <, and
+// f+1 needs k = 1 with >=, <, == or !=. A comparison that lives in a helper whose count is a parameter is
+// additionally counted once per in-package call site, so that extracting `hasQuorum(n)` does not thin the rule out.
+//
+// T8 — the leader index is (… + round) mod nodes with coefficient exactly one for the round: decided by a small
+// linear-form evaluator over the returned expression (through conversions, locals and in-package helpers).
+
+func init() {
+	Extend("C04", "", func(*rt.Ctx) {},
+		// off-by-one hidden behind the other spelling of the comparison
+		Mutant{ID: "C04-T7-leq-quorum", File: "core/qbft/qbft.go", Expect: "T7",
+			Old: "\tif len(prepares) < d.Quorum() {", New: "\tif len(prepares) <= d.Quorum() {"},
+		// operands swapped and strict: Quorum() <= n-1
+		Mutant{ID: "C04-T7-swapped-strict", File: "core/qbft/qbft.go", Expect: "T7",
+			Old: "\treturn len(commits) >= d.Quorum()", New: "\treturn d.Quorum() < len(commits)"},
+		// threshold through a local with an offset
+		Mutant{ID: "C04-T7-local-offset", File: "core/qbft/qbft.go", Expect: "T7",
+			Old: "\tif len(frc) < d.Faulty()+1 {", New: "\tneed := d.Faulty() + 2\n\tif len(frc) < need {"},
+		// f+1 compared with equality against f
+		Mutant{ID: "C04-T7-eq-faulty", File: "core/qbft/qbft.go", Expect: "T7",
+			Old: "\t\tif len(highestBySource) == d.Faulty()+1 {", New: "\t\tif len(highestBySource) == d.Faulty() {"},
+		// leader: round enters twice
+		Mutant{ID: "C04-T8-leader-round-twice", File: "core/consensus/qbft/qbft.go", Expect: "T8",
+			Old: "\treturn (int64(duty.Slot) + int64(duty.Type) + round) % int64(nodes)", New: "\tbase := int64(duty.Slot) + round\n\n\treturn (base + int64(duty.Type) + round) % int64(nodes)"},
+		// leader: round dropped
+		Mutant{ID: "C04-T8-leader-no-round", File: "core/consensus/qbft/qbft.go", Expect: "T8",
+			Old: "\treturn (int64(duty.Slot) + int64(duty.Type) + round) % int64(nodes)", New: "\t_ = round\n\n\treturn (int64(duty.Slot) + int64(duty.Type)) % int64(nodes)"},
+		// leader: modulus is not the number of nodes
+		Mutant{ID: "C04-T8-leader-wrong-modulus", File: "core/consensus/qbft/qbft.go", Expect: "T8",
+			Old: "\treturn (int64(duty.Slot) + int64(duty.Type) + round) % int64(nodes)", New: "\treturn (int64(duty.Slot) + int64(duty.Type) + round) % int64(nodes-1)"})
+}
+
 func c04Exact(c *rt.Ctx) {
-	c.Rule("T7", 13, func() {
-		for _, fn := range an.PkgFuncs(c.SSAPkg("core/qbft")) {
+	// The vacuity guard is not a frozen count of comparison sites (merging two upon-rule cases into one parametrised
+	// case, or extracting `hasQuorum`, legitimately changes it): the minimum is low, and instead every call of
+	// Quorum()/Faulty() in the package must end up in a classified comparison (coverage obligation below).
+	c.Rule("T7", 8, func() {
+		fns := an.PkgFuncsAll(c.SSAPkg("core/qbft"))
+		c04Used, c04Fns = map[*ssa.Call]bool{}, fns
+		defer func() { c04Used, c04Fns = nil, nil }()
+		for _, fn := range fns {
 			n := 0
 			for _, in := range an.Instrs(fn, false) {
 				bin, ok := in.(*ssa.BinOp)
-				if !ok {
+				if !ok || !isCompare(bin.Op) {
 					continue
 				}
-				switch bin.Op {
-				case token.EQL, token.NEQ, token.LSS, token.LEQ, token.GTR, token.GEQ:
-				default:
-					continue
-				}
-				kind, side := c04Threshold(bin.X), 0
-				if kind == "" {
-					kind, side = c04Threshold(bin.Y), 1
-				}
-				if kind == "" {
+				base, k, side := "", 0, 0
+				if b, kk, ok := c04Threshold(bin.X, 0); ok {
+					base, k, side = b, kk, 0
+				} else if b, kk, ok := c04Threshold(bin.Y, 0); ok {
+					base, k, side = b, kk, 1
+				} else {
 					continue
 				}
 				op := bin.Op
+				count := bin.X
 				if side == 0 { // threshold on the left: flip to "count OP threshold"
+					count = bin.Y
 					switch op {
 					case token.LSS:
 						op = token.GTR
@@ -44,57 +85,434 @@ func c04Exact(c *rt.Ctx) {
 						op = token.LEQ
 					}
 				}
+				// normalise > and <= to >= and <
+				switch op {
+				case token.GTR:
+					op, k = token.GEQ, k+1
+				case token.LEQ:
+					op, k = token.LSS, k+1
+				}
 				n++
 				good := false
-				switch kind {
+				kind := base
+				switch base {
 				case "quorum":
-					good = op == token.GEQ || op == token.LSS
-				case "f+1":
-					good = op == token.GEQ || op == token.LSS || op == token.EQL
-				case "f":
-					good = op == token.GTR || op == token.LEQ // count > f  ≡  count >= f+1
+					good = k == 0 && (op == token.GEQ || op == token.LSS)
+				case "faulty":
+					kind = "f+1"
+					good = k == 1 && (op == token.GEQ || op == token.LSS || op == token.EQL || op == token.NEQ)
 				}
-				c.Check(c02Strip(an.FuncName(fn))+" "+kind+" comparison #"+itoa(n), posOf(bin), good,
-					"the count is compared with the "+kind+" threshold by `"+op.String()+"`: with exactly that many live members the rule never fires (or fires one short)")
+				shown := fmt.Sprintf("count %s %s%+d", op, map[string]string{"quorum": "Quorum()", "faulty": "Faulty()"}[base], k)
+				key := hxStrip(an.FuncName(fn)) + " " + kind + " comparison #" + fmt.Sprint(n)
+				c.Check(key, posOf(bin), good,
+					"the count is compared with the "+kind+" threshold as `"+shown+"`: with exactly that many live members the rule never fires (or fires one short)")
+				// a comparison on a parameter of a small helper stands for every use of the helper
+				if c04FromParam(count) {
+					m := 0
+					for _, g := range fns {
+						for _, ci := range an.Calls(g, func(cc *ssa.CallCommon) bool {
+							f := cc.StaticCallee()
+							return f != nil && an.Orig(f) == an.Orig(fn)
+						}, false) {
+							m++
+							c.Good(key+" used by "+hxStrip(an.FuncName(g))+" #"+fmt.Sprint(m), ci.Pos(), "exact comparison inside the helper")
+						}
+					}
+				}
+			}
+		}
+		// coverage: a threshold that is computed but never reaches a recognised comparison means the rule lost sight of it
+		for _, fn := range fns {
+			for _, in := range an.Instrs(fn, false) {
+				call, ok := in.(*ssa.Call)
+				if !ok || c04Used[call] {
+					continue
+				}
+				f := call.Call.StaticCallee()
+				if f == nil || !strings.HasPrefix(hxStrip(an.FuncName(f)), "core/qbft.Definition.") || (f.Name() != "Quorum" && f.Name() != "Faulty") {
+					continue
+				}
+				if refs := call.Referrers(); refs == nil || len(*refs) == 0 {
+					continue
+				}
+				if c04OnlyLogged(call) {
+					continue
+				}
+				c.Unsure(hxStrip(an.FuncName(fn))+" "+f.Name()+"() not compared in a recognised form", call.Pos(),
+					"the threshold is computed here but does not reach a comparison of the form count OP "+f.Name()+"()+k that the rule can classify")
 			}
 		}
 	})
 	c.Rule("T8", 1, func() {
 		fn := c.Fn("core/consensus/qbft.leader")
-		rets := an.Returns(fn)
-		if len(rets) != 1 || len(rets[0].Results) != 1 || len(fn.Params) != 3 {
-			c.Bail("leader: unexpected shape")
-		}
-		round, nodes := ssa.Value(fn.Params[1]), ssa.Value(fn.Params[2])
-		rem, ok := an.Unwrap(rets[0].Results[0]).(*ssa.BinOp)
-		good, why := false, "the leader index is not a sum taken modulo the number of nodes"
-		if ok && rem.Op == token.REM && an.Unwrap(rem.Y) == nodes {
-			why = "the round does not enter the leader index as a plain addend (coefficient 1): the rotation can skip members or stand still"
-			// collect addends of the sum
-			var addends []ssa.Value
-			var walk func(v ssa.Value)
-			walk = func(v ssa.Value) {
-				if b, ok := v.(*ssa.BinOp); ok && b.Op == token.ADD {
-					walk(b.X)
-					walk(b.Y)
-					return
-				}
-				addends = append(addends, v)
+		var round, nodes ssa.Value
+		var ints []*ssa.Parameter
+		for _, p := range fn.Params {
+			if b, ok := p.Type().Underlying().(*types.Basic); ok && b.Info()&types.IsInteger != 0 {
+				ints = append(ints, p)
 			}
-			walk(rem.X)
-			nRound := 0
-			other := true
-			for _, a := range addends {
-				if an.Unwrap(a) == round {
-					nRound++
-				} else if usesValue(a, round, 0) {
-					other = false
-				}
-			}
-			good = nRound == 1 && other
 		}
-		c.Check("leader rotates by one per round", fn.Pos(), good, why)
+		if len(ints) != 2 {
+			c.Bail("leader: expected exactly two integer parameters (round, nodes), found %d", len(ints))
+		}
+		// the round is the 64-bit one (qbft rounds are int64), the node count a plain int; same types: by position
+		round, nodes = ints[0], ints[1]
+		k0, k1 := ints[0].Type().Underlying().(*types.Basic).Kind(), ints[1].Type().Underlying().(*types.Basic).Kind()
+		if k0 != k1 && k1 == types.Int64 {
+			round, nodes = ints[1], ints[0]
+		}
+		e := &t8Eval{round: round, nodes: nodes}
+		cases := an.ReturnCases(fn)
+		if len(cases) == 0 {
+			c.Bail("leader: no return")
+		}
+		verdict, why := 0, ""
+		for _, rc := range cases {
+			if len(rc.Vals) != 1 {
+				c.Bail("leader: unexpected result arity")
+			}
+			st, w := e.leader(rc.Vals[0], nil, 0)
+			if st > verdict {
+				verdict, why = st, w
+			}
+		}
+		switch verdict {
+		case 0:
+			c.Good("leader rotates by one per round", fn.Pos(), "(… + 1·round) mod nodes")
+		case 1:
+			c.Unsure("leader rotates by one per round", fn.Pos(), why)
+		default:
+			c.Bad("leader rotates by one per round", fn.Pos(), why)
+		}
 	})
+}
+
+// hxStrip removes type-argument lists from a function name.
+func hxStrip(s string) string {
+	var b strings.Builder
+	depth := 0
+	for _, r := range s {
+		switch {
+		case r == '[':
+			depth++
+		case r == ']':
+			depth--
+		case depth == 0:
+			b.WriteRune(r)
+		}
+	}
+	return b.String()
+}
+
+func c04FromParam(v ssa.Value) bool {
+	v = an.Resolve(v)
+	if _, ok := v.(*ssa.Parameter); ok {
+		return true
+	}
+	if call, ok := v.(*ssa.Call); ok {
+		if b, ok := call.Call.Value.(*ssa.Builtin); ok && b.Name() == "len" && len(call.Call.Args) == 1 {
+			_, isP := an.Resolve(call.Call.Args[0]).(*ssa.Parameter)
+			return isP
+		}
+	}
+	return false
+}
+
+// c04Used collects, during one T7 run, the Quorum()/Faulty() calls that took part in a classified comparison.
+var c04Used map[*ssa.Call]bool
+
+// c04Fns: the functions of core/qbft during a T7 run (to resolve a threshold handed to a helper as an argument).
+var c04Fns []*ssa.Function
+
+// c04OnlyLogged: every use of the value is an argument of a call that returns nothing or a logging field
+// (z.Int("quorum", d.Quorum())): not a protocol decision.
+func c04OnlyLogged(v ssa.Value) bool {
+	refs := v.Referrers()
+	if refs == nil {
+		return true
+	}
+	for _, r := range *refs {
+		switch x := r.(type) {
+		case *ssa.DebugRef:
+		case *ssa.Call:
+			n := an.CalleeName(&x.Call)
+			if !strings.HasPrefix(n, "app/z.") && !strings.HasPrefix(n, "app/log.") && !strings.HasPrefix(n, "fmt.") {
+				return false
+			}
+		case *ssa.MakeInterface:
+			if !c04OnlyLogged(x) {
+				return false
+			}
+		default:
+			return false
+		}
+	}
+	return true
+}
+
+// c04Threshold classifies v as Quorum()+k or Faulty()+k.
+func c04Threshold(v ssa.Value, d int) (base string, k int, ok bool) {
+	if d > 6 {
+		return "", 0, false
+	}
+	v = an.Resolve(v)
+	switch x := v.(type) {
+	case *ssa.Parameter:
+		// a threshold handed to a helper (`limit int`): every in-package call site must pass the same threshold
+		idx := an.ParamIndex(x)
+		first := true
+		for _, g := range c04Fns {
+			for _, ci := range an.Calls(g, func(cc *ssa.CallCommon) bool {
+				f := an.StaticBody(cc)
+				return f != nil && an.Orig(f) == an.Orig(x.Parent())
+			}, false) {
+				if idx >= len(ci.Common().Args) {
+					return "", 0, false
+				}
+				b, kk, ok := c04Threshold(ci.Common().Args[idx], d+1)
+				if !ok || (!first && (b != base || kk != k)) {
+					return "", 0, false
+				}
+				base, k, first = b, kk, false
+			}
+		}
+		return base, k, !first
+	case *ssa.Call:
+		if f := x.Call.StaticCallee(); f != nil && strings.HasPrefix(hxStrip(an.FuncName(f)), "core/qbft.Definition.") {
+			switch f.Name() {
+			case "Quorum":
+				if c04Used != nil {
+					c04Used[x] = true
+				}
+				return "quorum", 0, true
+			case "Faulty":
+				if c04Used != nil {
+					c04Used[x] = true
+				}
+				return "faulty", 0, true
+			}
+		}
+		// an in-package helper that returns the threshold (e.g. `func (d Definition) fPlus1() int`)
+		if body := an.StaticBody(&x.Call); body != nil && body.Signature.Results().Len() == 1 {
+			first := true
+			for _, rc := range an.ReturnCases(body) {
+				b, kk, ok := c04Threshold(rc.Vals[0], d+1)
+				if !ok || (!first && (b != base || kk != k)) {
+					return "", 0, false
+				}
+				base, k, first = b, kk, false
+			}
+			return base, k, !first
+		}
+	case *ssa.BinOp:
+		switch x.Op {
+		case token.ADD:
+			if c, isC := an.ConstInt(x.Y); isC {
+				if b, kk, ok := c04Threshold(x.X, d+1); ok {
+					return b, kk + int(c), true
+				}
+			}
+			if c, isC := an.ConstInt(x.X); isC {
+				if b, kk, ok := c04Threshold(x.Y, d+1); ok {
+					return b, kk + int(c), true
+				}
+			}
+		case token.SUB:
+			if c, isC := an.ConstInt(x.Y); isC {
+				if b, kk, ok := c04Threshold(x.X, d+1); ok {
+					return b, kk - int(c), true
+				}
+			}
+		}
+	}
+	return "", 0, false
+}
+
+// t8Eval evaluates the leader expression as a linear form in the round.
+type t8Eval struct {
+	round, nodes ssa.Value
+	depth        int
+}
+
+// t8Lin: coefficient of the round in a value; st 0 = exact, 1 = unknown shape, 2 = the round enters non-linearly
+type t8Lin struct {
+	coef int
+	st   int
+	why  string
+}
+
+type t8Env map[ssa.Value]t8Lin
+
+func (e *t8Eval) isNodes(v ssa.Value, env t8Env) bool {
+	v = an.Resolve(v)
+	if v == e.nodes {
+		return true
+	}
+	if l, ok := env[v]; ok && l.coef == -999 {
+		return true
+	}
+	return false
+}
+
+// leader decides one returned value: 0 good, 1 unsure, 2 bad.
+func (e *t8Eval) leader(v ssa.Value, env t8Env, d int) (int, string) {
+	v = an.Resolve(v)
+	if call, ok := v.(*ssa.Call); ok && d < 4 {
+		if body := an.StaticBody(&call.Call); body != nil {
+			env2 := e.bind(call, body, env)
+			worst, why := 0, ""
+			for _, rc := range an.ReturnCases(body) {
+				if len(rc.Vals) != 1 {
+					return 1, "helper with several results"
+				}
+				st, w := e.leader(rc.Vals[0], env2, d+1)
+				if st > worst {
+					worst, why = st, w
+				}
+			}
+			return worst, why
+		}
+	}
+	rem, ok := v.(*ssa.BinOp)
+	if !ok || rem.Op != token.REM {
+		if l := e.lin(v, env, 0); l.coef == 0 && l.st == 0 {
+			return 2, "a returned leader index does not depend on the round: the rotation stands still"
+		}
+		return 1, "the leader index is not written as a sum taken modulo the number of nodes"
+	}
+	if !e.isNodes(rem.Y, env) {
+		if usesValue(rem.Y, e.nodes, 0) || !usesValue(rem.X, e.nodes, 0) {
+			return 2, "the leader index is not reduced modulo the number of nodes"
+		}
+		return 1, "the modulus of the leader index is not recognisably the number of nodes"
+	}
+	l := e.lin(rem.X, env, 0)
+	switch {
+	case l.st == 2:
+		return 2, "the round does not enter the leader index as a plain addend (coefficient 1): " + l.why
+	case l.st == 1:
+		return 1, "cannot evaluate the leader index as a linear form in the round: " + l.why
+	case l.coef != 1:
+		return 2, fmt.Sprintf("the round enters the leader index with coefficient %d instead of 1: the rotation can skip members or stand still", l.coef)
+	}
+	return 0, ""
+}
+
+func (e *t8Eval) bind(call *ssa.Call, body *ssa.Function, env t8Env) t8Env {
+	env2 := t8Env{}
+	for i, p := range body.Params {
+		if i >= len(call.Call.Args) {
+			continue
+		}
+		a := call.Call.Args[i]
+		if e.isNodes(a, env) {
+			env2[p] = t8Lin{coef: -999}
+			continue
+		}
+		env2[p] = e.lin(a, env, 0)
+	}
+	return env2
+}
+
+func (e *t8Eval) lin(v ssa.Value, env t8Env, d int) t8Lin {
+	if d > 12 {
+		return t8Lin{st: 1, why: "expression too deep"}
+	}
+	v = an.Resolve(v)
+	if v == e.round {
+		return t8Lin{coef: 1}
+	}
+	if l, ok := env[v]; ok {
+		if l.coef == -999 {
+			return t8Lin{}
+		}
+		return l
+	}
+	switch x := v.(type) {
+	case *ssa.Const, *ssa.Parameter:
+		return t8Lin{}
+	case *ssa.BinOp:
+		a, b := e.lin(x.X, env, d+1), e.lin(x.Y, env, d+1)
+		st, why := a.st, a.why
+		if b.st > st {
+			st, why = b.st, b.why
+		}
+		switch x.Op {
+		case token.ADD:
+			return t8Lin{coef: a.coef + b.coef, st: st, why: why}
+		case token.SUB:
+			return t8Lin{coef: a.coef - b.coef, st: st, why: why}
+		case token.MUL:
+			if ka, ok := an.ConstInt(x.X); ok {
+				return t8Lin{coef: int(ka) * b.coef, st: st, why: why}
+			}
+			if kb, ok := an.ConstInt(x.Y); ok {
+				return t8Lin{coef: a.coef * int(kb), st: st, why: why}
+			}
+			if a.coef == 0 && b.coef == 0 {
+				return t8Lin{st: st, why: why}
+			}
+			return t8Lin{st: 2, why: "the round is multiplied by a non-constant"}
+		case token.REM:
+			if e.isNodes(x.Y, env) && b.coef == 0 {
+				return a // congruent modulo the number of nodes
+			}
+		}
+		if a.coef == 0 && b.coef == 0 && a.st == 0 && b.st == 0 {
+			return t8Lin{}
+		}
+		if st < 2 {
+			st, why = 2, "the round passes through `"+x.Op.String()+"`"
+		}
+		return t8Lin{st: st, why: why}
+	case *ssa.Call:
+		if body := an.StaticBody(&x.Call); body != nil && e.depth < 4 && body.Signature.Results().Len() == 1 {
+			env2 := e.bind(x, body, env)
+			e.depth++
+			defer func() { e.depth-- }()
+			var res t8Lin
+			first := true
+			for _, rc := range an.ReturnCases(body) {
+				l := e.lin(rc.Vals[0], env2, d+1)
+				if !first && (l.coef != res.coef || l.st != res.st) {
+					return t8Lin{st: 1, why: "helper returns different forms"}
+				}
+				res, first = l, false
+			}
+			return res
+		}
+	}
+	// any other value: independent of the round unless the round is among its (transitive) operands
+	if e.depends(v, env, 0) {
+		return t8Lin{st: 1, why: fmt.Sprintf("the round flows through %T", v)}
+	}
+	return t8Lin{}
+}
+
+func (e *t8Eval) depends(v ssa.Value, env t8Env, d int) bool {
+	if d > 10 {
+		return true
+	}
+	v = an.Resolve(v)
+	if v == e.round {
+		return true
+	}
+	if l, ok := env[v]; ok {
+		return l.coef != 0 && l.coef != -999 || l.st != 0
+	}
+	in, ok := v.(ssa.Instruction)
+	if !ok {
+		return false
+	}
+	if _, isPhi := v.(*ssa.Phi); isPhi && d > 4 {
+		return false
+	}
+	for _, op := range an.Operands(in) {
+		if e.depends(op, env, d+1) {
+			return true
+		}
+	}
+	return false
 }
 
 func usesValue(v, target ssa.Value, d int) bool {
@@ -114,26 +532,4 @@ func usesValue(v, target ssa.Value, d int) bool {
 		}
 	}
 	return false
-}
-
-// c04Threshold classifies v as d.Quorum(), d.Faulty()+1 or d.Faulty().
-func c04Threshold(v ssa.Value) string {
-	v = an.Unwrap(v)
-	isCall := func(x ssa.Value, name string) bool {
-		call, ok := an.Unwrap(x).(*ssa.Call)
-		return ok && call.Call.StaticCallee() != nil && call.Call.StaticCallee().Name() == name &&
-			strings.HasPrefix(c02Strip(an.FuncName(call.Call.StaticCallee())), "core/qbft.Definition.")
-	}
-	if isCall(v, "Quorum") {
-		return "quorum"
-	}
-	if isCall(v, "Faulty") {
-		return "f"
-	}
-	if b, ok := v.(*ssa.BinOp); ok && b.Op == token.ADD {
-		if k, ok := an.ConstInt(b.Y); ok && k == 1 && isCall(b.X, "Faulty") {
-			return "f+1"
-		}
-	}
-	return ""
 }
